@@ -381,7 +381,7 @@ def main(tier):
     rep = Report("C14", tier, "model_checking")
     quick = tier == "quick"
     variant = "ossl-asan" if quick else "ossl-plain"
-    deadline = time.time() + (170 if quick else 1700)
+    deadline = time.time() + (600 if quick else 1700)
     depth = 4 if quick else 5
     # quick: the library-only alphabet to depth 4 and, separately, the alphabet with the softhsm2-util actions to depth 3; thorough: everything to depth 5
     util_cov = None
